@@ -495,6 +495,13 @@ func (c *Ctx) retriedReaderFresh() {
 						continue
 					}
 					for _, l := range leaves(a) {
+						// a reader the function was handed: consumed once, it cannot be sent again
+						if p, isParam := l.(*ssa.Parameter); isParam && p.Parent() == fn && types.IsInterface(p.Type()) && (name == "io.Copy" || name == "io.CopyN") && a == call.Call.Args[1] {
+							n++
+							key := fmt.Sprintf("%s:param-%s->%s", fnKey(fn), p.Name(), name)
+							c.bad(key, call.Pos(), "the reader parameter %s is copied from inside a retry cycle: the first attempt consumes it (partly), a repeated attempt uploads only what is left and still succeeds", p.Name())
+							continue
+						}
 						mk, idx := callOf(l)
 						if mk == nil || !makers[callee(mk)] {
 							continue
@@ -613,5 +620,96 @@ func (c *Ctx) valueErrorTypes() {
 	}
 	if good == 0 {
 		c.bad("minio-errors", 0, "the S3 store no longer recognises minio.ErrorResponse at all (%d site(s)): a missing object is not reported as ChunkMissing", n)
+	}
+}
+
+// chunkDataOwned: a Chunk keeps the byte slice it is built from (as its stored or plain form) for
+// as long as it lives - it is handed to workers, cached, passed through by servers.  The slice
+// given to a chunk constructor must therefore be that chunk's own: freshly read (ReadAll, ReadN,
+// ReadFile, GetObject), made here, a local buffer's bytes, a parameter, or the body of a message.
+// The bytes of a buffer that lives in a connection, store or other long-lived object are
+// overwritten by the next request on it.
+func (c *Ctx) chunkDataOwned() {
+	ctors := map[string]int{"desync.NewChunkFromStorage": 1, "desync.NewChunkWithID": 1, "desync.NewChunk": 0}
+	fresh := func(name string) bool {
+		switch name {
+		case "io/ioutil.ReadAll", "io.ReadAll", "os.ReadFile", "io/ioutil.ReadFile", "(desync.reader).ReadN", "(*desync.RemoteHTTPBase).GetObject", "(desync.Converters).fromStorage", "(desync.Converters).toStorage", "desync.Compress", "desync.Decompress", "(*desync.Chunk).Data":
+			return true
+		}
+		return false
+	}
+	n := 0
+	for _, fn := range c.libFuncsAll() {
+		for _, b := range fn.Blocks {
+			for _, ins := range b.Instrs {
+				call, ok := ins.(*ssa.Call)
+				if !ok {
+					continue
+				}
+				ai, isCtor := ctors[callee(call)]
+				if !isCtor || ai >= len(call.Call.Args) {
+					continue
+				}
+				n++
+				key := fmt.Sprintf("%s:%s-data", fnKey(fn), strings.TrimPrefix(callee(call), "desync."))
+				why := ""
+				var ls []ssa.Value
+				for _, l := range leaves(call.Call.Args[ai]) {
+					if inner := stripSlices(l); inner != l {
+						ls = append(ls, leaves(inner)...)
+					} else {
+						ls = append(ls, l)
+					}
+				}
+				for _, l := range ls {
+					switch x := l.(type) {
+					case *ssa.Const, *ssa.Parameter, *ssa.MakeSlice, *ssa.FreeVar:
+						continue
+					case *ssa.UnOp:
+						// a field that holds data handed over with the object (a message body, a job's chunk)
+						if fa, ok := x.X.(*ssa.FieldAddr); ok && x.Op == token.MUL {
+							if f := fieldOf(fa); f == "Message.Body" || strings.HasSuffix(f, ".b") || strings.HasSuffix(f, ".Data") {
+								continue
+							}
+							why = "a load of the long-lived field " + fieldOf(fa)
+						}
+					case *ssa.Field:
+						continue
+					}
+					if cl, idx := callOf(l); cl != nil {
+						name := callee(cl)
+						if fresh(name) && idx == 0 {
+							continue
+						}
+						if name == "(*bytes.Buffer).Bytes" {
+							// whose buffer?
+							recv := cl.Call.Args[0]
+							if al, isLocal := recv.(*ssa.Alloc); isLocal && al.Parent() == fn {
+								continue
+							}
+							if c2, _ := callOf(recv); c2 != nil && (callee(c2) == "bytes.NewBuffer" || callee(c2) == "builtin:new") {
+								continue
+							}
+							if hasOrigin(recv, func(o string) bool { return strings.HasPrefix(o, "field:") || strings.HasPrefix(o, "global:") }) || func() bool { _, isFA := recv.(*ssa.FieldAddr); return isFA }() {
+								why = "the bytes of a buffer kept in " + strings.Join(origins(recv), ",") + " (" + lockKey(recv) + ")"
+							} else {
+								continue
+							}
+						} else if h := directCallee(cl); h != nil && h.Pkg == c.LibSSA {
+							continue // a library function's own result (checked where it is built)
+						} else {
+							continue
+						}
+					}
+					if why != "" {
+						break
+					}
+				}
+				c.verdict(why == "", key, ins.Pos(), "the chunk is built from bytes of its own", "the chunk is built from "+why+": the next request that reuses that memory changes the chunk's bytes under whoever still holds it (a worker, a cache write, a pass-through to a client)")
+			}
+		}
+	}
+	if n < 6 {
+		c.bad("chunk-data", 0, "only %d chunk constructions found", n)
 	}
 }
